@@ -100,7 +100,8 @@ def opCardDec (args : List SExp) : Option OpResult := do
       | .ok (some q) => s!"ok {prQuery q}"
       | .ok none => "nobackend"
       | .error _ => "400"
-    pure ⟨impl, fun got => if got = impl then [] else [("C09", "server-reads-query-differently"), ("C13", "report-decoding")]⟩
+    pure ⟨impl, fun got => (if got.startsWith "5" || got = "panic" then [("C13", "report-answered-5xx")] else []) ++
+      (if got = impl then [] else [("C09", "server-reads-query-differently")])⟩
   | _ => none
 
 def cwMultiGet : SExp → Option MultiGet
